@@ -143,6 +143,123 @@ def decV (fix : Bool) : Nat → Bytes → Res (V × Bytes)
       | .ok (length, isIndef, r2) =>
         decBody fix (decV fix fuel) (b0.toNat / 64) (b0.toNat / 32 % 2) tag length isIndef r2
 
+/-! ### extended executable model: constructed strings (X.690 8.7.3), BIT STRING with no unused bits
+
+  `decVX` is `decV` plus the two accumulators `decodeASN1BERValue` threads through the recursion:
+  `bib` (a `*bitio.Buffer`: the outermost constructed BIT/OCTET STRING creates it, every primitive universal
+  BIT/OCTET STRING below appends its value) and `sb` (a `*strings.Builder`, same for the character strings).
+  `none` = nil pointer.  A buffer created by a node is local to that call; a buffer that was passed in is shared,
+  so what a subtree appends is visible to the caller.  The theorems of Props/C16.lean are about `decV`; the driver
+  uses `decVX` and checks on every case that the two agree wherever `decV` is defined (not `unmodelled`). -/
+
+structure Acc where
+  bib : Option Bytes
+  sb : Option Bytes
+deriving Inhabited
+
+def decChildrenX (dec : Acc → Bytes → Res (V × Acc × Bytes)) (indef : Bool) (form tag : Nat) :
+    Nat → Acc → Bytes → Res (List V × Acc × Bytes)
+  | 0, _, _ => .err .fuel
+  | _+1, acc, [] => .ok ([], acc, [])
+  | lf+1, acc, b :: bs =>
+    let step : Res (List V × Acc × Bytes) :=
+      -- asn1_ber.go:189-207: the first constructed string on the way down creates its buffer
+      let acc1 : Acc :=
+        if form = 1 ∧ acc.bib.isNone ∧ acc.sb.isNone then
+          if tag = 3 ∨ tag = 4 then { acc with bib := some [] }
+          else if isStrTag tag then { acc with sb := some [] }
+          else acc
+        else acc
+      match dec acc1 (b :: bs) with
+      | .err e => .err e
+      | .ok (v, acc2, r) =>
+        match decChildrenX dec indef form tag lf acc2 r with
+        | .err e => .err e
+        | .ok (vs, acc3, r') => .ok (v :: vs, acc3, r')
+    if indef then
+      match bs with
+      | [] => .err .eof
+      | b2 :: _ => if b = 0 ∧ b2 = 0 then .ok ([], acc, b :: bs) else step
+    else step
+
+def decPrimitiveX (acc : Acc) (tag length : Nat) (sub : Bytes) : Res (V × Acc × Bytes) :=
+  let app (a : Option Bytes) (x : Bytes) : Option Bytes := a.map (· ++ x)
+  if tag = 3 then
+    match readU 1 sub with
+    | .err e => .err e
+    | .ok (unused, r) =>
+      if unused > 7 then .err .fatal
+      else if unused ≠ 0 then .err .unmodelled              -- a value that is not a whole number of bytes
+      else
+        match readN (length - 1) r with
+        | .err e => .err e
+        | .ok (x, r') => .ok (.str x, { acc with bib := app acc.bib x }, r')
+  else if tag = 4 then
+    match readN length sub with
+    | .err e => .err e
+    | .ok (x, r) => .ok (.str x, { acc with bib := app acc.bib x }, r)
+  else if isStrTag tag then
+    match readN length sub with
+    | .err e => .err e
+    | .ok (x, r) => .ok (.str (sanitizeX x), { acc with sb := app acc.sb (sanitizeX x) }, r)
+  else
+    match decPrimitive tag length sub with
+    | .err e => .err e
+    | .ok (v, r) => .ok (v, acc, r)
+
+def decBodyX (fix : Bool) (dec : Acc → Bytes → Res (V × Acc × Bytes)) (acc : Acc) (cls form tag length : Nat)
+    (isIndef : Bool) (r2 : Bytes) : Res (V × Acc × Bytes) :=
+  let indef := if fix then isIndef else decide (length = 0)
+  if indef = true ∧ (cls ≠ 0 ∨ tag ≠ 5) ∧ form = 0 then .err .fatal
+  else
+    match (if indef then Res.ok (r2, ([] : Bytes)) else readN length r2) with
+    | .err e => .err e
+    | .ok (sub, after) =>
+      let body : Res (V × Acc × Bytes) :=
+        if form = 1 ∨ tag = 16 ∨ tag = 17 then
+          match decChildrenX dec indef form tag (sub.length + 1) acc sub with
+          | .err e => .err e
+          | .ok (vs, accL, s1) =>
+            match (if indef then readN 2 s1 else .ok ([], s1)) with
+            | .err e => .err e
+            | .ok (_, s2) =>
+              -- what the caller sees of the buffers: only those it passed in
+              let accOut : Acc := { bib := if acc.bib.isSome then accL.bib else none,
+                                    sb := if acc.sb.isSome then accL.sb else none }
+              if cls = 0 ∧ tag ≠ 16 ∧ tag ≠ 17 then
+                -- asn1_ber.go:214-243: the `value` field of a constructed string (no field: torepr gives null)
+                let v : V :=
+                  if form = 1 ∧ (tag = 3 ∨ tag = 4) then (match accL.bib with | some x => .str x | none => .null)
+                  else if form = 1 ∧ isStrTag tag then (match accL.sb with | some x => .str x | none => .null)
+                  else .null
+                .ok (v, accOut, s2)
+              else .ok (.arr vs, accOut, s2)
+        else if cls = 0 then decPrimitiveX acc tag length sub
+        else .ok (reprFails, acc, [])
+      match body with
+      | .err e => .err e
+      | .ok (v, acc', unread) => .ok (v, acc', unread ++ after)
+
+def decVX (fix : Bool) : Nat → Acc → Bytes → Res (V × Acc × Bytes)
+  | 0, _, _ => .err .fuel
+  | _+1, _, [] => .err .eof
+  | fuel+1, acc, b0 :: r =>
+    match readTag (b0.toNat % 32) r with
+    | .err e => .err e
+    | .ok (tag, r1) =>
+      match decodeLength r1 with
+      | .err e => .err e
+      | .ok (length, isIndef, r2) =>
+        decBodyX fix (decVX fix fuel) acc (b0.toNat / 64) (b0.toNat / 32 % 2) tag length isIndef r2
+
+def dropAcc (r : Res (V × Acc × Bytes)) : Res (V × Bytes) :=
+  match r with
+  | .ok (v, _, rest) => .ok (v, rest)
+  | .err e => .err e
+
+def decodeX (bs : Bytes) : Res (V × Bytes) := withRepr (dropAcc (decVX false (bs.length + 1) ⟨none, none⟩ bs))
+def decodeXFixed (bs : Bytes) : Res (V × Bytes) := withRepr (dropAcc (decVX true (bs.length + 1) ⟨none, none⟩ bs))
+
 /-- `fq -d asn1_ber torepr` -/
 def decode (bs : Bytes) : Res (V × Bytes) := withRepr (decV false (bs.length + 1) bs)
 /-- with a definite length of zero told apart from the indefinite form -/
